@@ -551,7 +551,7 @@ func checkC06(c *Ctx, r *Report) {
 	nAcq := 0
 	for _, f := range c.FnsOfPkg(swarmP) {
 		lf := computeLockFlow(f, heldSet{})
-		allInstrs(f, func(in ssa.Instruction) {
+		allInstrsIn(f, func(in ssa.Instruction) {
 			call, ok := in.(*ssa.Call)
 			if !ok {
 				return
